@@ -325,6 +325,10 @@ def r19f(ctx):
                 d = dotted(e) or ""
                 if d.startswith("types."):
                     found.add(d.split(".", 1)[1])
+                elif d and "." not in d:
+                    r2 = m.lookup(MOD, d)
+                    if r2 and r2[0] == "ext" and r2[1].startswith("types."):
+                        found.add(r2[1].split(".", 1)[1])
             site = i
     getattrs = [c for c in walk_no_nested(gm.node) if isinstance(c, ast.Call) and call_name(c) == "getattr"]
     before = site is not None and all(site.lineno < c.lineno for c in getattrs)
